@@ -21,7 +21,8 @@ LEVEL = "exploration"
 RULE = ("algebraic laws of boosts checked on the public API for every coordinate system of the boosted "
         "vector (12) and of the booster (12 for p4, 6 for beta3), operands over timelike/spacelike/"
         "near-light-cone/ultra-relativistic strata; a cell is (law, vector system, booster system, backend) "
-        "and is non-trivial when both sides of the law were evaluated on representable operands and compared")
+        "and is non-trivial when both sides of the law were evaluated on representable operands and compared; backends: 60-digit "
+        "objects, float64 objects, and one-element NumPy and Awkward arrays (the same public calls through the array backends)")
 ASSUMPTIONS = [
     "laws are compared through the monitor's own readout of stored coordinates and its own conversions",
     "tau-stored operands are forward timelike (so that every intermediate stays representable); t-stored operands are arbitrary",
@@ -34,7 +35,7 @@ S3 = R.SYSTEMS[3]
 
 
 def plan(tier, seed):
-    return [{"vsys": list(s), "mode": m} for s in S4 for m in ("mp", "f64")]
+    return [{"vsys": list(s), "mode": m} for s in S4 for m in ("mp", "f64", "numpy", "awkward")]
 
 
 def _vec4_for(r, system, core):
@@ -63,7 +64,7 @@ def run_shard(spec, tier, seed):
     J = L.Judge(res, "C09", mode)
     core = not mode.mp
     r = gen.rng(seed, "C09", R.sysname(vsys), mode.name)
-    n = DRAWS[tier]
+    n = DRAWS[tier] if mode.name in ("mp", "f64") else max(4, DRAWS[tier] // 5)
     ONE = mpf(1)
 
     def mk(rv, system, mom=False):
@@ -214,7 +215,7 @@ def finalize(total, tier, seed):
     need = 20
     if len(laws) < need:
         total.inconc(f"only {len(laws)} distinct laws were exercised (expected >= {need})")
-    for m in ("mp", "f64"):
+    for m in ("mp", "f64", "numpy", "awkward"):
         if not any(c.endswith("|" + m) for c in total.cells):
             total.inconc(f"mode {m} never compared")
     return {"laws": sorted(laws)}
